@@ -21,6 +21,7 @@ import (
 
 	"github.com/prometheus/prometheus/model/labels"
 	"github.com/prometheus/prometheus/promql"
+	"github.com/prometheus/prometheus/storage"
 
 	"github.com/thanos-community/promql-engine/api"
 	"github.com/thanos-community/promql-engine/engine"
@@ -35,6 +36,8 @@ var faultShapes = []string{
 	"histogram_quantile(0.9, foo)", "delta(foo[2m] offset 30s)", "vector(time()) + foo", "max by (a) (foo) * on (a) group_right foo",
 	"abs(last_over_time(foo[1m]))", "-last_over_time(foo[45s])", "histogram_quantile(0.5, foo) + 1", "clamp_min(last_over_time(bar[1m]), 2)",
 	"nometric", "sum by (a) (nometric)", "rate(nometric[1m])", "topk(2, nometric)",
+	// a select that the default optimizers turn into a filter over a broader select of the same metric
+	`sum(rate(foo{a="x"}[1m])) / sum(rate(foo[1m]))`, `foo{a="x",b="1"} / scalar(sum(foo{a="x"}))`, `sum(foo{b="1"} offset 30s) / sum(foo offset 30s)`,
 }
 
 var extremeQueries = []string{
@@ -214,6 +217,9 @@ func oracleFault(seed int64, id int, mode string) CaseResult {
 			fc.Query = pick(r, []string{"foo + bar", "foo * on (a) group_left bar", "sum(foo) / on () sum(bar)", "bar - on (a, b) foo"})
 		}
 	}
+	// a cancellation that arrives while a remote engine's storage is inside a callback (lifecycle only):
+	// no querier of any engine may be open when the distributed query's Exec returns
+	distCancel := mode == "lifecycle" && !racing && (fc.Kind == "cancel" || fc.Kind == "cancel-slow") && id%3 == 1
 	runtime.GOMAXPROCS(fc.Procs)
 	data := faultData(fc.Window)
 	res := CaseResult{Query: fc.Query, Window: fc.Window, Procs: fc.Procs}
@@ -221,6 +227,10 @@ func oracleFault(seed int64, id int, mode string) CaseResult {
 	if clean.Err == "create" {
 		res.Skipped = "rejected at creation"
 		return res
+	}
+	if distCancel {
+		fc.Site = pick(r, []string{"select", "querier", "ss.next"})
+		counts[fc.Site] = 1
 	}
 	if counts[fc.Site] == 0 && !racing {
 		res.Skipped = "site " + fc.Site + " not reached"
@@ -281,7 +291,7 @@ func oracleFault(seed int64, id int, mode string) CaseResult {
 	if fc.Kind != "none" {
 		st.Faults = []Fault{{Kind: fc.Kind, Site: fc.Site, N: fc.N}}
 	}
-	eng, _ := newEngines((racing && fc.Dist) || distErr, data, st)
+	eng, _ := newEngines((racing && fc.Dist) || distErr || distCancel, data, st)
 	remoteStores := lastRemoteStores
 	base := goroutineCount()
 
@@ -460,6 +470,8 @@ func oracleExtreme(seed int64, id int) CaseResult {
 				remotes := []api.RemoteEngine{engine.NewLocalEngine(opts, NewStore(data[:half])), engine.NewLocalEngine(opts, NewStore(data[half:]))}
 				engs = append(engs, engine.NewDistributedEngine(opts, api.NewStaticEndpoints(remotes)))
 			}
+			// a distributed engine that has no remote engine (yet)
+			engs = append(engs, engine.NewDistributedEngine(engine.Opts{EngineOpts: promOpts(EngineCfg{})}, api.NewStaticEndpoints(nil)))
 			for _, eng := range engs {
 				// a range query whose step is below a millisecond (the resolution of the step grid)
 				step = "range query with a step of 400us"
@@ -722,10 +734,16 @@ func oracleConc(seed int64, id int) CaseResult {
 		}
 	}
 	sameSelect := (id%6 == 5 || id%6 == 3) && !dist
+	if sameSelect && id%6 == 3 {
+		// many more queries than cores, all under way at once: they must not starve each other
+		runtime.GOMAXPROCS(2)
+		jobs = make([]job, 6*runtime.NumCPU()+8)
+		k = len(jobs)
+	}
 	if sameSelect {
 		// every query issues the same select and all of them are inside it at the same time; every
 		// other one is cancelled there: the others must not notice
-		text := pick(r, []string{"sum by (a) (foo)", "foo", "rate(foo[1m])", "max(foo) by (b)"})
+		text := pick(r, []string{"sum by (a) (foo)", "foo", "rate(foo[1m])", "max(foo) by (b)", "sum(foo)", "count(rate(foo[1m]))", "sum(foo)"})
 		for i := range jobs {
 			jobs[i].q, jobs[i].w = text, faultWindow
 		}
@@ -762,7 +780,12 @@ func oracleConc(seed int64, id int) CaseResult {
 			} else if i%5 == 4 && strings.Contains(fmt.Sprintf("%T", q), "compatibilityQuery") {
 				go func() { time.Sleep(time.Duration(i) * 50 * time.Microsecond); q.Cancel() }()
 			}
-			got[i] = canonResult(q.Exec(context.Background()))
+			ectx, ecancel := context.WithTimeout(context.Background(), 40*time.Second)
+			got[i] = canonResult(q.Exec(ectx))
+			if ectx.Err() == context.DeadlineExceeded {
+				got[i] = Canon{Kind: "error", Err: "hang", ErrMsg: "Exec did not finish within 40s"}
+			}
+			ecancel()
 			q.Close()
 		}(i)
 	}
@@ -800,7 +823,7 @@ func oracleHist(seed int64, id int) CaseResult {
 	dist := id%5 == 0
 	eng, _ := newEngines(false, data, st)
 	// the set of remote engines may change while the distributed engine lives
-	endpoints := &dynEndpoints{engines: []api.RemoteEngine{engine.NewLocalEngine(engine.Opts{EngineOpts: promOpts(EngineCfg{})}, st)}}
+	endpoints := &dynEndpoints{engines: []api.RemoteEngine{engine.NewLocalEngine(engine.Opts{EngineOpts: promOpts(EngineCfg{})}, st)}, stores: []storage.Queryable{st}}
 	// the options a server builds once and creates all its engines from: an optimizer list with spare capacity
 	sharedOpts := engine.Opts{EngineOpts: promOpts(EngineCfg{})}
 	if id%10 == 0 {
@@ -830,7 +853,15 @@ func oracleHist(seed int64, id int) CaseResult {
 	n := 10 + r.Intn(40)
 	pool := append(append([]string(nil), faultShapes...), "sort(foo)", "foo +", "topk(NaN, foo)", "absent(foo)")
 	var ops []string
+	lastQuery := ""
 	for step := 0; step < n; step++ {
+		if lastQuery != "" && r.Intn(8) == 0 {
+			// a query that is created and closed without ever being executed
+			if q, err := makeQuery(eng, st, EngineCfg{}, lastQuery, w); err == nil {
+				q.Close()
+			}
+			ops = append(ops, "abandoned("+lastQuery+")")
+		}
 		switch k := r.Intn(10); {
 		case k < 2: // append samples
 			i := r.Intn(len(st.Series))
@@ -842,7 +873,7 @@ func oracleHist(seed int64, id int) CaseResult {
 		case k == 3 && dist && len(endpoints.Engines()) < 3: // another remote engine joins, with series of its own
 			extra := NewStore([]SeriesData{{Labels: labels.FromStrings("__name__", "foo", "a", fmt.Sprintf("e%d", step), "b", "1", "le", "9", "zone", "0"),
 				Samples: []Sample{{T: w.Start - 5000, V: float64(100 + step)}, {T: w.Start + 400_000, V: float64(200 + step)}}}})
-			endpoints.add(engine.NewLocalEngine(engine.Opts{EngineOpts: promOpts(EngineCfg{})}, extra))
+			endpoints.add(engine.NewLocalEngine(engine.Opts{EngineOpts: promOpts(EngineCfg{})}, extra), extra)
 			ops = append(ops, "new-remote-engine")
 		case k == 4 && dist: // another distributed engine is created from the same options, over other endpoints
 			other := NewStore([]SeriesData{{Labels: labels.FromStrings("__name__", "foo", "a", "elsewhere", "b", "1", "le", "9", "zone", "0"),
@@ -856,6 +887,10 @@ func oracleHist(seed int64, id int) CaseResult {
 			ops = append(ops, "new-series")
 		default:
 			qs := pick(r, pool)
+			if lastQuery != "" && r.Intn(3) == 0 {
+				qs = lastQuery // the same text again, possibly after the data has changed
+			}
+			lastQuery = qs
 			win := w
 			if r.Intn(3) == 0 {
 				win = Window{Start: 1_200_000, End: 1_200_000}
@@ -867,7 +902,7 @@ func oracleHist(seed int64, id int) CaseResult {
 			}
 			ops = append(ops, fmt.Sprintf("%s [lookback=%v]", qs, qcfg.QueryLookback))
 			q, err := makeQuery(eng, st, qcfg, qs, win)
-			fq, ferr := makeQuery(newFresh(dist, endpoints.Engines(), sharedOpts.LogicalOptimizers != nil), st, qcfg, qs, win)
+			fq, ferr := makeQuery(newFresh(dist, endpoints.freshEngines(), sharedOpts.LogicalOptimizers != nil), st, qcfg, qs, win)
 			if (err != nil) != (ferr != nil) {
 				res.Fail = fmt.Sprintf("step %d %q: creation differs from a fresh engine (%v vs %v)", step, qs, err, ferr)
 				res.Ref = strings.Join(ops, " ; ")
@@ -963,7 +998,20 @@ func (t *memTracker) Delete(int) {
 }
 
 // dynEndpoints: remote endpoints whose set of engines grows over time
+// freshEngines: newly constructed remote engines over the same storages (a fresh distributed engine
+// has fresh remote engines: whatever a remote engine remembers is engine state, too)
+func (d *dynEndpoints) freshEngines() []api.RemoteEngine {
+	d.mu.Lock()
+	defer d.mu.Unlock()
+	out := make([]api.RemoteEngine, len(d.stores))
+	for i, st := range d.stores {
+		out[i] = engine.NewLocalEngine(engine.Opts{EngineOpts: promOpts(EngineCfg{})}, st)
+	}
+	return out
+}
+
 type dynEndpoints struct {
+	stores  []storage.Queryable
 	mu      sync.Mutex
 	engines []api.RemoteEngine
 }
@@ -974,9 +1022,10 @@ func (d *dynEndpoints) Engines() []api.RemoteEngine {
 	return append([]api.RemoteEngine(nil), d.engines...)
 }
 
-func (d *dynEndpoints) add(e api.RemoteEngine) {
+func (d *dynEndpoints) add(e api.RemoteEngine, st storage.Queryable) {
 	d.mu.Lock()
 	d.engines = append(d.engines, e)
+	d.stores = append(d.stores, st)
 	d.mu.Unlock()
 }
 
